@@ -334,6 +334,16 @@ func buildLog(kind string, ops []walOp, path string) ([]byte, []blockInfo, error
 		if cur < prev+8 {
 			return nil, nil, fmt.Errorf("op %d grew the log from %d to %d bytes: less than a block header", i, prev, cur)
 		}
+		if ops[i].Write {
+			// Write replaces the content: version byte + exactly one block
+			img, rerr := os.ReadFile(path)
+			if rerr != nil || len(img) < 9 {
+				return nil, nil, pt.Inconclusivef("read back after Write: %v", rerr)
+			}
+			if got := int(binary.LittleEndian.Uint32(img[1:])); got != cur-1-4 {
+				return nil, nil, fmt.Errorf("op %d: after Write the log must hold the version byte and one block; it is %d bytes long and the block at offset 1 claims %d bytes (earlier content was not replaced?)", i, cur, got)
+			}
+		}
 		blocks = append(blocks, blockInfo{start: prev, end: cur, items: items})
 		prev = cur
 	}
